@@ -1,0 +1,14 @@
+//go:build verif
+
+package iavl
+
+// Verification hook (build tag verif): no-op yield points at commit-protocol boundaries where
+// a checker can park the writer and run a concurrent reader. Not compiled into normal builds.
+
+var verifHook func(point string)
+
+func verifYield(point string) {
+	if verifHook != nil {
+		verifHook(point)
+	}
+}
